@@ -15,10 +15,12 @@
 #include <deque>
 #include <memory>
 #include <climits>
+#include <cstring>
 #include <igris/datastruct/ring.h>
 #include <igris/datastruct/ring_counter.h>
 #include <igris/container/ring.h>
 #include <igris/container/cyclic_buffer.h>
+#include <igris/datastruct/bytering.h>
 
 using namespace hv;
 typedef std::vector<uint8_t> bytes;
@@ -650,6 +652,103 @@ static void run_lifeprobe(const std::vector<std::string> &w, out &o)
     o.result = "-";
 }
 
+
+// ================================================================== bytering
+// igris/datastruct/bytering.h: the pointer version of the byte ring
+// (`reset bring <size>`).  Result = "<ret> <head-start> <tail-start> <empty> <full>".
+struct BRing
+{
+    bytering_head r;
+    std::unique_ptr<exact_buf> buf;
+    std::deque<uint8_t> q;
+};
+static std::unique_ptr<BRing> br;
+static std::string bring_state(BRing &b)
+{
+    return S(b.r.head - b.r.start) + " " + S(b.r.tail - b.r.start) + " " + S(bytering_empty(&b.r) ? 1 : 0) + " " +
+           S(bytering_full(&b.r) ? 1 : 0);
+}
+static void bring_check(BRing &b, out &o)
+{
+    bytering_head *r = &b.r;
+    size_t size = b.buf->n;
+    if (r->start != b.buf->p || r->end != b.buf->p + size) o.fail("start/end moved");
+    if (!(r->head >= r->start && r->head < r->end)) o.fail("head outside [start,end)");
+    if (!(r->tail >= r->start && r->tail < r->end)) o.fail("tail outside [start,end)");
+    if ((bytering_empty(r) != 0) != b.q.empty()) o.fail("bytering_empty disagrees with reference (" + S(b.q.size()) + " stored)");
+    if ((bytering_full(r) != 0) != (b.q.size() == size - 1)) o.fail("bytering_full disagrees with reference (" + S(b.q.size()) + " stored of " + S(size - 1) + ")");
+    if (b.q.empty()) o.tag("empty");
+    if (b.q.size() == size - 1) o.tag("full");
+    if (size & (size - 1)) o.tag("nonpow2");
+    if (r->tail < r->head) o.tag("wrapped");
+}
+static void run_bring(const std::vector<std::string> &w, out &o)
+{
+    BRing &b = *br;
+    bytering_head *r = &b.r;
+    const std::string &op = w[0];
+    size_t size = b.buf->n;
+    std::string ret = "-";
+    if (op == "push" || op == "pushn")
+    {
+        uint8_t c = unhex(w[1])[0];
+        bytering_head before = *r;
+        bytes snap = b.buf->vec();
+        bool full = b.q.size() == size - 1;
+        if (op == "pushn")
+        { // unchecked variant: the caller has tested bytering_full itself
+            if (full) { o.result = "bad-op"; return; }
+            bytering_push_nocheck(r, c);
+            b.q.push_back(c);
+        }
+        else
+        {
+            int rc = bytering_push(r, c);
+            ret = S(rc);
+            if (full)
+            {
+                o.tag("reject-full");
+                if (rc != -1) o.fail("push on a full ring returned " + S(rc));
+                if (before.head != r->head || before.tail != r->tail || snap != b.buf->vec())
+                    o.fail("push on a full ring changed the state");
+            }
+            else
+            {
+                if (rc != 0) o.fail("push with " + S(b.q.size()) + " of " + S(size - 1) + " stored returned " + S(rc));
+                b.q.push_back(c);
+            }
+        }
+        if (c == 0xff) o.tag("ff"); else if (c >= 0x80) o.tag("hi-byte");
+    }
+    else if (op == "pop" || op == "popn")
+    {
+        bytering_head before = *r;
+        bytes snap = b.buf->vec();
+        bool empty = b.q.empty();
+        if (op == "popn" && empty) { o.result = "bad-op"; return; }
+        int rc = op == "pop" ? bytering_pop(r) : bytering_pop_nocheck(r);
+        ret = S(rc);
+        if (snap != b.buf->vec()) o.fail("pop wrote to the buffer");
+        if (empty)
+        {
+            o.tag("reject-empty");
+            if (rc != -1) o.fail("pop on an empty ring returned " + S(rc));
+            if (before.head != r->head || before.tail != r->tail) o.fail("pop on an empty ring changed the state");
+        }
+        else
+        {
+            uint8_t exp = b.q.front();
+            b.q.pop_front();
+            if (rc != (int)exp) o.fail("pop returned " + S(rc) + " for stored byte " + S(exp));
+            if (exp == 0xff) o.tag("ff"); else if (exp >= 0x80) o.tag("hi-byte");
+        }
+    }
+    else if (op == "dump") ret = hex(b.buf->p, size);
+    else { o.result = "bad-op"; return; }
+    bring_check(b, o);
+    o.result = ret + " " + bring_state(b);
+}
+
 // ------------------------------------------------------------------------ run
 static int kind = 0; // 1 ring, 2 typed int, 3 typed char, 4 cyc, 5 rc
 static void run_op(const std::vector<std::string> &w, const std::string &, out &o)
@@ -689,6 +788,17 @@ static void run_op(const std::vector<std::string> &w, const std::string &, out &
             cy.log.clear(); kind = 4;
             o.result = "- " + S(cy.c->counter.counter) + " " + S(cy.c->size());
         }
+        else if (w.size() == 3 && w[1] == "bring")
+        {
+            br.reset(new BRing);
+            size_t size = strtoull(w[2].c_str(), 0, 10);
+            br->buf.reset(new exact_buf(size));
+            for (size_t i = 0; i < size; i++) br->buf->p[i] = (uint8_t)(i * 7 + 3);
+            bytering_init(&br->r, br->buf->p, (unsigned)size);
+            kind = 6;
+            bring_check(*br, o);
+            o.result = "- " + bring_state(*br);
+        }
         else if (w.size() == 3 && w[1] == "rc")
         {
             ring_counter_init(&rcs, (int)strtol(w[2].c_str(), 0, 10));
@@ -705,6 +815,7 @@ static void run_op(const std::vector<std::string> &w, const std::string &, out &
     case 3: tc.run(w, o); break;
     case 4: run_cyc(w, o); break;
     case 5: run_rc(w, o); break;
+    case 6: run_bring(w, o); break;
     default: o.result = "bad-op";
     }
 }
@@ -1058,6 +1169,65 @@ static void gen_cyc(rng &r, bool th)
     }
 }
 
+
+// bytering.h: every (head, tail) state of small rings x every operation, all
+// byte values, random histories
+static void gen_bring(rng &r, bool th)
+{
+    for (unsigned size = 1; size <= (th ? 12u : 9u); size++)
+        for (unsigned rot = 0; rot < size; rot++)
+            for (unsigned fill = 0; fill + 1 <= size; fill++)
+                for (const char *op : {"push ff", "push 00", "pop", "pushn 80", "popn", "dump"})
+                {
+                    if (!strcmp(op, "pushn 80") && fill == size - 1) continue;
+                    if (!strcmp(op, "popn") && fill == 0) continue;
+                    if (size == 1 && rot) continue;
+                    P("reset bring " + S(size));
+                    for (unsigned i = 0; i < rot && size > 1; i++) { P("push " + hexn(0x10 + i, 2)); P("pop"); }
+                    for (unsigned i = 0; i < fill; i++) P("push " + hexn(SPECIAL[(i + rot) % 7], 2));
+                    P(op);
+                    for (unsigned i = 0; i <= size; i++) P("pop"); // everything left comes out in order
+                    P("push 5a");
+                    P("pop");
+                }
+    for (unsigned size : {2u, 3u, 5u, 8u})
+    {
+        P("reset bring " + S(size));
+        for (unsigned b = 0; b < 256; b++) { P("push " + hexn(b, 2)); P("pop"); }
+        for (unsigned b = 0; b < 256; b += size - 1)
+        {
+            for (unsigned i = 0; i < size - 1; i++) P("push " + hexn(255 - (b + i) % 256, 2));
+            P("push 77"); // full: rejected
+            for (unsigned i = 0; i < size; i++) P("pop");
+        }
+    }
+    for (int rep = 0; rep < (th ? 6 : 1); rep++)
+        for (unsigned size : {1u, 2u, 3u, 4u, 5u, 7u, 8u, 9u, 16u, 17u, 31u, 64u, 100u, 255u, 256u, 257u})
+        {
+            P("reset bring " + S(size));
+            unsigned cnt = 0, cap = size - 1;
+            int phase = 0, left = 0;
+            for (int k = 0; k < (th ? 500 : 200); k++)
+            {
+                if (left-- <= 0) { phase = (int)r.below(3); left = (int)r.range(5, 2 * size + 5); }
+                unsigned x = (unsigned)r.below(100);
+                bool prod = phase == 1 ? x < 75 : phase == 2 ? x < 25 : x < 50;
+                if (prod)
+                {
+                    if (cnt < cap && r.chance(20)) { P("pushn " + rhex(r, 1)); cnt++; }
+                    else { P("push " + rhex(r, 1)); if (cnt < cap) cnt++; }
+                }
+                else
+                {
+                    if (cnt && r.chance(20)) { P("popn"); cnt--; }
+                    else { P("pop"); if (cnt) cnt--; }
+                }
+                if (size <= 16 && r.chance(3)) P("dump");
+            }
+            for (unsigned i = 0; i <= cnt; i++) P("pop");
+        }
+}
+
 // element lifetime in unbounded_array / ring / cyclic_buffer (oracle-only)
 static void gen_lifetime()
 {
@@ -1097,6 +1267,7 @@ static void gen(rng &r, const std::string &tier)
             gen_random_ring(r, size, th ? 600 : 250);
     gen_typed(r, th);
     gen_cyc(r, th);
+    gen_bring(r, th);
 }
 
 int main(int argc, char **argv) { return main_(argc, argv, gen, run_op); }
